@@ -223,4 +223,23 @@ PROPS = {
             "gzip/xz codecs are exercised through temporary files, not modelled",
         ],
     },
+    "C07": {
+        "harness": [{"cmd": "c07", "n": {"quick": 700, "thorough": 30000}, "extra": ["-per", "120"]}],
+        "extra_targets": ["Corr/C07Cert.vo"],
+        "rule": "random nucleotide alignments of 2-4 rows x 4-23 columns derived from a common ancestor at six divergence "
+                "levels (identical ... saturated: every site a transversion), with IUPAC codes, lower case, gaps incl. "
+                "leading/trailing runs, x 7 models x gamma on/off (alpha 1/2, 3/4, 1, 2) x rm-gaps x 3 gap counting "
+                "modes x rm-ambiguous x weights (none / dyadic) through dna.DistMatrix; raw and p-distances are compared "
+                "exactly (float within rounding of the model's rational), every entry is judged (symmetry, zero diagonal, "
+                "0 for identical rows, >= observed proportion, undefined pairs never small), and up to 40 (thorough 1500) "
+                "entries of the transcendental models are certified against the closed form by the interval tactic; "
+                "non-trivial = at least 3 rows; distinct = distinct (options, alignment)",
+        "nontrivial": lambda m: len(m.get("names", [])) >= 3,
+        "assumptions": [
+            "binary64 rounding is outside the model: formulas are over R, counts over Q; the tie is exact for "
+            "raw/p-distance (dyadic weights) and by 1e-9 certificates for the other models; pairs whose estimator "
+            "argument is within 1e-9 of 0 are not judged",
+            "math.Log / math.Pow are taken to be the real functions within tolerance",
+        ],
+    },
 }
